@@ -1173,4 +1173,6 @@ func init() {
 	// "an error for an index outside the array", "rejects a wrong argument count with an error": the error a built-in
 	// returns has to leave the call strategies of FunExpr as an error, with or without an error handler installed
 	register("C18", ruleC19NoDrop)
+	// the goroutines of the call strategies are counted and signalled in pairs: SPINASYNC without Done never finishes
+	register("C14", ruleC10GoClosures)
 }
